@@ -5,6 +5,8 @@ name, caught = sys.argv[1], sys.argv[2]
 # round-2 seeds are named Cnn-r2-k and live in /tmp/seed-out2/Cnn-k
 if '-r2-' in name:
     src = '/tmp/seed-out2/' + name.replace('-r2-', '-')
+elif '-r3-' in name:
+    src = '/tmp/seed-out3/' + name.replace('-r3-', '-')
 else:
     src = '/tmp/seed-out/' + name
 dst = '/verif/seeded/' + name
